@@ -540,10 +540,12 @@ func (r *runner) step(op Op) (o opObs) {
 		}
 		// domain of the property: candidates derive from a finalized root of the previous version
 		// or from a candidate of the same version
-		if oi != nil && oi.rid >= 2 && !(r.ref.present[oi.ver][oi.rid] && (oi.ver == ri.ver || r.ref.finalized[oi.ver])) {
+		// (pipelining: the old root may also be a still pending candidate of the previous version,
+		// provided it is among the roots finalized later - checked at Finalize)
+		if oi != nil && oi.rid >= 2 && !(r.ref.present[oi.ver][oi.rid] && (oi.ver == ri.ver || oi.ver+1 == ri.ver)) {
 			r.outOfDomain = true
 		}
-		if r.ref.hasLast && ri.ver != r.ref.last+1 {
+		if r.ref.hasLast && ri.ver != r.ref.last+1 && ri.ver != r.ref.last+2 {
 			r.outOfDomain = true
 		}
 		fresh := !r.ref.present[ri.ver][ri.rid]
@@ -622,6 +624,11 @@ func (r *runner) step(op Op) (o opObs) {
 		r.lastDiscarded, r.lastFinal = nil, nil
 		for rid := range r.ref.present[op.Ver] {
 			if !fin[rid] {
+				for _, d := range r.ref.derived[vr(op.Ver, rid)] {
+					if r.ref.present[op.Ver+1][d] {
+						r.outOfDomain = true // a pipelined candidate of the next version loses its parent
+					}
+				}
 				delete(r.ref.present[op.Ver], rid)
 				r.lastDiscarded = append(r.lastDiscarded, rid)
 			} else {
@@ -1081,11 +1088,12 @@ func genCase(r *prng.R, profile string) Case {
 	var finStates []int      // all finalized state roots of the previous version (badger profile)
 	removed := map[int]int{}
 	earliest := start
-	var pruned, keptIDs []int
+	var pruned, keptIDs, preS, preI []int
 	shareLeaf := r.Chance(60)
 	for vi := 0; vi < nver; vi++ {
 		ver := start + uint64(vi)
-		var candS, candI []int
+		candS, candI := preS, preI
+		preS, preI = nil, nil
 		ns := r.Range(1, 3)
 		for j := 0; j < ns; j++ {
 			old := finState
@@ -1156,6 +1164,20 @@ func genCase(r *prng.R, profile string) Case {
 		if len(candI) > 0 && r.Chance(85) {
 			finIO = candI[r.Intn(len(candI))]
 			fin = append(fin, finIO)
+		}
+		// pipelining: candidates of the next version derived from the root that is about to be
+		// finalized are committed BEFORE this version is finalized; later competitors follow after
+		if profile != "errors" && vi < nver-1 && r.Chance(45) {
+			for j, n := 0, r.Range(1, 2); j < n; j++ {
+				ws := g.writes(g.conts[chosenS], removed)
+				if shareLeaf && r.Chance(30) {
+					ws = append(ws, Write{Key: 6, Val: 1})
+				}
+				preS = append(preS, g.commit(ver+1, 1, chosenS, ws))
+			}
+			if r.Chance(35) {
+				preI = append(preI, g.commit(ver+1, 2, 0, []Write{{Key: 8, Val: r.Range(1, 2)}, {Key: r.Range(1, 7), Val: 1}}))
+			}
 		}
 		g.ops = append(g.ops, Op{K: "finalize", Ver: ver, Roots: fin})
 		keptIDs = append(keptIDs, fin...)
@@ -1396,7 +1418,23 @@ func main() {
 		sum.Evaluations++
 		key, _ := json.Marshal(c.Ops)
 		prunes, discarded := 0, 0
+		finSeen := map[uint64]bool{}
 		for i, op := range c.Ops {
+			if op.K == "finalize" && res.obsB[i].class == eOk {
+				finSeen[op.Ver] = true
+			}
+			if op.K == "commit" && op.Ver > 0 && !finSeen[op.Ver-1] && res.obsB[i].class == eOk {
+				if op.Old != 0 && pl.roots[op.Old].ver == op.Ver-1 {
+					sum.Count("commit_shape", "pipelined(child of a not yet finalized candidate)")
+				} else if op.Old == 0 && i > 0 {
+					for _, q := range c.Ops[:i] {
+						if q.K == "commit" && q.Ver == op.Ver-1 {
+							sum.Count("commit_shape", "pipelined(from scratch before the previous version is finalized)")
+							break
+						}
+					}
+				}
+			}
 			o := res.obsB[i]
 			sum.Count("op", op.K+":"+eNames[o.class])
 			sum.Count("op_pathbadger", op.K+":"+eNames[res.obsP[i].class])
